@@ -1,0 +1,18 @@
+//go:build verif
+
+package ibccallbacks
+
+import (
+	sdk "github.com/cosmos/cosmos-sdk/types"
+
+	"github.com/cosmos/ibc-go/v11/modules/apps/callbacks/internal"
+	"github.com/cosmos/ibc-go/v11/modules/apps/callbacks/types"
+)
+
+// VerifProcessCallback exposes internal.ProcessCallback to the external verification harness.
+func VerifProcessCallback(
+	ctx sdk.Context, callbackType types.CallbackType,
+	callbackData types.CallbackData, callbackExecutor func(sdk.Context) error,
+) error {
+	return internal.ProcessCallback(ctx, callbackType, callbackData, callbackExecutor)
+}
